@@ -15,7 +15,9 @@ META = dict(
     bounds=dict(
         quick="convert(): all file names and formats (uninterpreted constants, formats optional), all boolean values of "
               "many / allow_changes (symbolic); main(): all 16 subsets of {-i, -o, -c, -m} x short/long spelling x 3 "
-              "argument orders with distinct constants as values",
+              "argument orders with distinct constants as values; error paths: the API call that fails (load / dump / none) x six "
+              "exception types incl. the API's own x output file pre-existing or not: the exception object escapes as it is, "
+              "nothing is retried, and convert() leaves input and pre-existing output untouched (real temporary directory)",
         thorough="same"),
     outside=["the subprocess / console-script entry point and Python's exit status for an escaping exception (trusted)",
              "argparse internals", "np.seterr(..., 'raise') in main() can only turn a success into a failure",
@@ -188,38 +190,73 @@ def h_main(ctx):
 
 
 def h_error_propagates(ctx):
-    """An exception raised by the API escapes convert() (so the process exits non-zero); nothing is retried."""
+    """An exception raised by the API escapes convert() unchanged; nothing is retried; convert() itself has no effect on
+    the file system (the API is a recording stub here, so input and pre-existing output must be exactly as before)."""
+    import os
+    import shutil
+    import tempfile
     import iodata.__main__ as M
-    which = ctx.choice(["load", "dump"], label="failing-call")
+    from iodata.utils import DumpError, FileFormatError, LoadError, PrepareDumpError
+    which = ctx.choice(["load", "dump", "none"], label="failing-call")
     many = ctx.choice([False, True], label="many")
+    kind = ctx.choice(["custom", "LoadError", "FileFormatError", "PrepareDumpError", "DumpError", "ValueError"], label="exception")
+    existing = ctx.choice([True, False], label="output-exists")
 
     class Boom(Exception):
         pass
+    exc_type = {"custom": Boom, "LoadError": LoadError, "FileFormatError": FileFormatError, "PrepareDumpError": PrepareDumpError,
+                "DumpError": DumpError, "ValueError": ValueError}[kind]
+    tmp = tempfile.mkdtemp(prefix="symx-c18-")
+    infn, outfn = os.path.join(tmp, "in.xyz"), os.path.join(tmp, "out.xyz")
+    with open(infn, "w") as fh:
+        fh.write("input content\n")
+    if existing:
+        with open(outfn, "w") as fh:
+            fh.write("precious earlier output\n")
+
+    def listing():
+        return {n: open(os.path.join(tmp, n)).read() for n in sorted(os.listdir(tmp))}
+    before = listing()
     ndump = []
+    raised = []
     saved = {n: getattr(M, n) for n in ("load_one", "load_many", "dump_one", "dump_many")}
+
+    def make():
+        e = exc_type("boom") if exc_type in (Boom, ValueError) else exc_type("boom", outfn)
+        raised.append(e)
+        return e
 
     def load(fn, *, fmt=None):
         if which == "load":
-            raise Boom()
+            raise make()
         return "data"
 
     def dump(d, fn, *, fmt=None, allow_changes=False):
         ndump.append(1)
         if which == "dump":
-            raise Boom()
+            raise make()
     M.load_one = M.load_many = load
     M.dump_one = M.dump_many = dump
+    escaped = None
     try:
         try:
-            M.convert("a", "b", many)
-            escaped = False
-        except Boom:
-            escaped = True
+            M.convert(infn, outfn, many)
+        except Exception as e:      # noqa: BLE001
+            escaped = e
+        after = listing()
     finally:
         for n, v in saved.items():
             setattr(M, n, v)
-    ctx.oblige("api-error-escapes-convert", escaped, cls=f"{which},many={many}")
-    ctx.oblige("no-dump-after-failed-load", (which != "load") or not ndump, cls=f"{which},many={many}")
+        shutil.rmtree(tmp, ignore_errors=True)
+    cls = f"{which},{kind},many={many},existing={existing}"
+    if which == "none":
+        ctx.oblige("no-exception-without-api-error", escaped is None, cls=cls, detail=repr(escaped))
+    else:
+        ctx.oblige("api-error-escapes-convert", escaped is not None and escaped is raised[0], cls=cls, detail=repr(escaped))
+    ctx.oblige("no-dump-after-failed-load", (which != "load") or not ndump, cls=cls)
+    ctx.oblige("exactly-one-dump-attempt", which == "load" or len(ndump) == 1, cls=cls)
+    ctx.oblige("convert-has-no-file-system-effect-of-its-own", after == before, cls=cls,
+               detail=f"before={sorted(before)} after={sorted(after)}")
 
 
 def jobs(tier):
@@ -230,5 +267,5 @@ def jobs(tier):
             out.append(job("C18", f"convert[infmt={int(i)},outfmt={int(o)}]", M, "h_convert", dict(infmt=i, outfmt=o)))
     out.append(job("C18", "convert[twin]", M, "h_convert", dict(twin=True), expect="cex", validate=False))
     out.append(job("C18", "main-options", M, "h_main", {}, max_validate=96))
-    out.append(job("C18", "error-propagates", M, "h_error_propagates", {}))
+    out.append(job("C18", "error-propagates", M, "h_error_propagates", {}, max_validate=144))
     return out
